@@ -20,7 +20,7 @@ CLAIMS = {
          'round-trip equality rests on prost / protobuf-python (trusted)'),
  'C08': ('both validators called and propagated; duplicate detection consults the insert result with one set across active+removed; used-subset-of-defined guard; used-id coverage; typed conversion: required field => MissingField, unspecified enum => error, bound via Bound::new, hint ids checked, every field carried; unset bound never defaulted through the prost Default; every error of a hint / dependency field carries its context frame; used-id coverage in both directions (objective + active constraints for validation, removed constraints not read for ParametricInstance); enum tables decided per variant; Bound aggregates dominated by BoundError::check',
          'that the rule set is exactly the accepted language is not decided'),
- 'C09': ('every input field consumed/carried; every input constraint (active and already removed) flows into removed_constraints; no active constraints; objective slice contains f, one parameter and g*g; fresh ids derive from max defined id + 1; tags reference the constraint / parameter id; no Err exit at all (C09.refusals); every decision variable carried; the squared factor is the constraint's own function; weight tag derives from the constraint id only; C02 product / sum kernels re-decided',
+ 'C09': ('every input field consumed/carried; every input constraint (active and already removed) flows into removed_constraints; no active constraints; objective slice contains f, one parameter and g*g; fresh ids derive from max defined id + 1; tags reference the constraint / parameter id; no Err exit at all (C09.refusals); every decision variable carried; the squared factor is the own function of the constraint; weight tag derives from the constraint id only; C02 product / sum kernels re-decided',
          'the evaluation identity at arbitrary weights is not decided'),
  'C10': ('required-subset-of-given guard => error; partial evaluation applied to the objective and every active constraint with the given map; all fields carried, parameters: Some(given); From<Instance> carries all fields; every list field moved or rebuilt element by element without a skip (C10.carry field-complete); missing-parameter guard accepts exactly supersets',
          'the numerical identity is not decided'),
